@@ -99,7 +99,8 @@ CHECKS = [('check_trace', 'check_trace (fst cb)'), ('check_strategy', 'check_str
 
 def run_tie(ctx, name, cases, shard=60):
   """All three checks in one pass; the failing ones are then named by running each check on the failing cases."""
-  terms = ['((%s : trace_case), %s)' % (c[0], core.boollit(c[3])) for c in cases]
+  # plain numerals (the cases file opens Z_scope): elaboration of the literals is the dominant cost
+  terms = ['((%s : trace_case), %s)' % (c[0].replace('%Z', ''), core.boollit(c[3])) for c in cases]
   imports = ['Grist.Model.Sched']
   bad = ctx.run_cases(name, imports, 'fun cb => ' + ' && '.join(x[1] for x in CHECKS), terms, shard=shard)
   out = []
@@ -111,7 +112,7 @@ def run_tie(ctx, name, cases, shard=60):
 
 
 def correspond(ctx):
-  cases = traced_cases(ctx, ctx.n(50, 900), p_try=0.15)
+  cases = traced_cases(ctx, ctx.n(40, 900), p_try=0.15)
   for term, info, st, strict in cases:
     nontrivial = bool(st.get('need') or st.get('cycle') or st.get('opp'))
     ctx.count(term, nontrivial=nontrivial, sample=info if nontrivial else None,
